@@ -18,6 +18,7 @@
 //! quantile harnesses assume that the number of valid elements is not 1.
 use tea_agg::{AggValidExt, PercentileOfMethod, QuantileMethod, VecAggValidExt};
 use tea_core::prelude::*;
+use tea_map::MapValidVec;
 use tea_rolling::*;
 
 use crate::util::*;
@@ -455,3 +456,100 @@ pub fn enc_input_rolling<const N: usize>(fl: &mut EFl) {
 }
 
 include!("c08_gen.rs");
+
+// ---------------------------------------------------------------------------------------------
+// null insertion: vrank (mapping entry point) — added after seeded change C08-m1
+// ---------------------------------------------------------------------------------------------
+
+/// `vrank(pct, rev)` of `s` and of `s` with one null inserted: every original element keeps its rank
+/// (plain average rank, or the fraction of the valid count), the inserted null gets a null rank.
+/// `pct` / `rev` are literals per harness (they select the code path of the closing-group branch).
+pub fn ins_rank<E: Elt, const N: usize, const M: usize>(pct: bool, rev: bool, fl: &mut Fl) -> bool
+where
+    E::Inner: PartialOrd,
+{
+    let s = keys::<N>(Alpha::Small);
+    let p = any_pos::<N>();
+    let t: [Option<i32>; M] = with_null(&s, p);
+    ins_witness(&s, p, fl);
+    let (a, b): (Vec<E>, Vec<E>) = (to_vec(&s), to_vec(&t));
+    let ra: Vec<f64> = a.vrank(pct, rev);
+    let rb: Vec<f64> = b.vrank(pct, rev);
+    assert!(ra.len() == N && rb.len() == M, "rank output is input-length");
+    assert!(rb[p] != rb[p], "the inserted null gets a null rank");
+    let mut tie_last = false;
+    let mut i = 0;
+    while i < N {
+        let j = if i < p { i } else { i + 1 };
+        assert!(same_f64(ra[i], rb[j]), "the rank of every element is unchanged by an inserted null");
+        // witness: the element is one of at least two equal greatest (smallest when reversed) valid keys
+        if let Some(x) = s[i] {
+            let (mut eq, mut beyond) = (0usize, 0usize);
+            let mut l = 0;
+            while l < N {
+                if let Some(y) = s[l] {
+                    if y == x {
+                        eq += 1;
+                    } else if (!rev && y > x) || (rev && y < x) {
+                        beyond += 1;
+                    }
+                }
+                l += 1;
+            }
+            if eq > 1 && beyond == 0 {
+                tie_last = true;
+            }
+        }
+        i += 1;
+    }
+    tie_last
+}
+
+macro_rules! c08_rank_body {
+    ($E:ty, $N:expr, $M:expr, $pct:expr, $rev:expr) => {{
+        let mut fl = Fl::default();
+        let tie_last = ins_rank::<$E, $N, $M>($pct, $rev, &mut fl);
+        kani::cover!(fl.before_valid, "the null is inserted before a valid element");
+        kani::cover!(fl.after_all, "the null is inserted after the last valid element");
+        kani::cover!(tie_last, "a tie among the valid elements that sort last");
+        kani::cover!(fl.null, "nothing valid: every rank null");
+    }};
+}
+
+#[kani::proof]
+#[kani::unwind(6)]
+pub fn c08_ins_rank_f64_pct_n2() {
+    c08_rank_body!(f64, 2, 3, true, false)
+}
+
+#[kani::proof]
+#[kani::unwind(6)]
+pub fn c08_ins_rank_opt_pct_rev_n2() {
+    c08_rank_body!(Option<i32>, 2, 3, true, true)
+}
+
+#[kani::proof]
+#[kani::unwind(6)]
+pub fn c08_ins_rank_f64_plain_n2() {
+    c08_rank_body!(f64, 2, 3, false, false)
+}
+
+#[kani::proof]
+#[kani::unwind(7)]
+pub fn c08_ins_rank_f64_pct_n3() {
+    c08_rank_body!(f64, 3, 4, true, false)
+}
+
+#[cfg(feature = "thorough")]
+#[kani::proof]
+#[kani::unwind(7)]
+pub fn c08_ins_rank_opt_pct_n3() {
+    c08_rank_body!(Option<i32>, 3, 4, true, false)
+}
+
+#[cfg(feature = "thorough")]
+#[kani::proof]
+#[kani::unwind(7)]
+pub fn c08_ins_rank_f64_plain_rev_n3() {
+    c08_rank_body!(f64, 3, 4, false, true)
+}
